@@ -164,23 +164,30 @@ class Monitors:
         orig_pcs = cr.prior_combinations_sample
         orig_eim = cr.estimate_importances_minibatches
 
-        def compute_batch_ranking(line_tmp_storage, *a, **kw):
-            m.on_batch_entry(line_tmp_storage)
-            out = orig_cbr(line_tmp_storage, *a, **kw)
+        # the wrappers are signature-transparent (*a, **kw): a refactoring that adds a parameter to one of the
+        # monitored functions must not look like a defect of the code under test
+        def _arg(a, kw, pos, name):
+            return a[pos] if len(a) > pos else kw.get(name)
+
+        def compute_batch_ranking(*a, **kw):
+            m.on_batch_entry(_arg(a, kw, 0, 'line_tmp_storage'))
+            out = orig_cbr(*a, **kw)
             m.on_batch_return(out)
             return out
 
-        def mixed_rank_graph(input_dataframe, args, cpu_pool, pbar):
+        def mixed_rank_graph(*a, **kw):
+            input_dataframe = _arg(a, kw, 0, 'input_dataframe')
+            args = _arg(a, kw, 1, 'args')
             frame = {c: input_dataframe[c].tolist() for c in input_dataframe.columns} if (m.oracles & {'C05', 'C06'}) else None
             cols = list(input_dataframe.columns)
-            out = orig_mrg(input_dataframe, args, cpu_pool, pbar)
+            out = orig_mrg(*a, **kw)
             m.on_graph(cols, frame, args, out)
             return out
 
-        def prior_combinations_sample(combinations, args):
-            cand = list(combinations)
-            cap = args.combination_number_upper_bound
-            out = orig_pcs(combinations, args)
+        def prior_combinations_sample(*a, **kw):
+            cand = list(_arg(a, kw, 0, 'combinations'))
+            cap = _arg(a, kw, 1, 'args').combination_number_upper_bound
+            out = orig_pcs(*a, **kw)
             m.on_sampler(cand, cap, list(out))
             return out
 
